@@ -418,6 +418,10 @@ func runEntry(c *c04Case, data []byte, obs *c04Obs) error {
 
 // sane: a shallow walk of the decoded value looking for values Go itself could not have built
 func sane(v reflect.Value, depth int) (bad string) {
+	if depth == 0 {
+		// a forged string or slice header points anywhere: reading through it is a panic here, not the end of the executor
+		defer debug.SetPanicOnFault(debug.SetPanicOnFault(true))
+	}
 	defer func() {
 		if e := recover(); e != nil {
 			bad = "walk panicked: " + fmt.Sprint(e)
@@ -427,6 +431,15 @@ func sane(v reflect.Value, depth int) (bad string) {
 		return ""
 	}
 	switch v.Kind() {
+	case reflect.String:
+		if n := v.Len(); n < 0 {
+			return fmt.Sprintf("string len=%d", n)
+		} else if n > 0 {
+			s := v.String()
+			if s[0]+s[n-1]+s[n/2] == 0 && n > 1<<40 {
+				return fmt.Sprintf("string len=%d", n)
+			}
+		}
 	case reflect.Ptr, reflect.Interface:
 		if v.IsNil() {
 			return ""
@@ -459,6 +472,9 @@ func sane(v reflect.Value, depth int) (bad string) {
 		}
 		it := v.MapRange()
 		for it.Next() {
+			if b := sane(it.Key(), depth+1); b != "" {
+				return b
+			}
 			if b := sane(it.Value(), depth+1); b != "" {
 				return b
 			}
